@@ -208,10 +208,12 @@ def proj_tensor(t, oids=None, mode="int"):
 def oid_sets(obj):
     """identity sets of the mutable parts of a fiber / tensor: fibers, boxes, ranks, attrs (python ids)"""
     s = {"fibers": set(), "boxes": set(), "ranks": set(), "attrs": set()}
+    visited = set()
 
     def rec(f, depth=0):
-        if id(f) in s["fibers"] or depth > 12:
+        if id(f) in visited or depth > 12:
             return
+        visited.add(id(f))
         s["fibers"].add(id(f))
         a = getattr(f, "_rank_attrs", None)
         if a is not None and getattr(f, "_owner", None) is None:
